@@ -26,7 +26,7 @@ REQUIRED_REACH = {"scale.py": ["_ScaledGrad.forward", "_ScaledGrad.backward"], "
 MIN_NONTRIVIAL = {"quick": 80, "thorough": 900}
 WATCHDOG = {"quick": 2400, "thorough": 8 * 3600}
 REACH = True
-STEPS = ["gelu", "silu", "softmax", "layer_norm", "rms_norm", "linear", "linear_nobias", "silu_glu", "add", "residual_mlp", "residual_attn", "sdpa", "dropout0",
+STEPS = ["residual_const", "residual_detached", "gelu", "silu", "softmax", "layer_norm", "rms_norm", "linear", "linear_nobias", "silu_glu", "add", "residual_mlp", "residual_attn", "sdpa", "dropout0",
          "mod_linear", "mod_mlp", "mod_mhsa", "mod_tlayer", "matmul", "conv1d", "mod_rmsnorm", "mod_layernorm", "mod_conv1d", "mod_gelu"]
 
 
@@ -325,6 +325,10 @@ def build_comp(case, torch):
                     h = U.add(h, U.linear(h, w, None), constraint=c if c in (None, "gmean", "hmean", "to_output_scale") else None)
                 elif s == "residual_mlp":
                     h = U.residual_apply(lambda r: U.linear(U.gelu(U.linear(r, w, None)), w.T, None), h, tau=m)
+                elif s == "residual_const":
+                    h = U.residual_apply(lambda r: (b * 1.0).expand(r.shape), h, tau=m)
+                elif s == "residual_detached":
+                    h = U.residual_apply(lambda r: U.gelu(U.linear(r.detach(), w, None)), h, tau=m)
                 elif s == "residual_attn":
                     h = U.residual_apply(lambda r: U.scaled_dot_product_attention(r, r, U.linear(r, w, None), is_causal=True, mult=m), h, tau=0.1)
                 elif s == "sdpa":
